@@ -10,7 +10,7 @@ import (
 func init() {
 	register(&Property{
 		ID:          "C08",
-		Explanation: "Decides structural necessary conditions of 'snapshot + log suffix = full replay': log compaction is requested only after the snapshot was committed (published and recorded) and registered with the log reader, and the compaction index never exceeds snapshot index minus the overhead; entries are removed from the log store only through the compact-log request; on snapshot recovery of an on-disk state machine the state machine is synced before the received image is shrunk; snapshot metadata (index, term, membership, sessions, on-disk index) is captured under the state-machine lock and every field of the Snapshot record is filled from that metadata; applying a recovered snapshot restores index AND term of both the applied and the last-applied cursors and the membership; sessions and membership are part of every snapshot and restored before user data (shared with C05); the last-applied cursor is published only after the entries were applied; a leader that cannot send log entries because they were compacted falls back to InstallSnapshot. Does not decide state equality of twin replicas.",
+		Explanation: "Decides structural necessary conditions of 'snapshot + log suffix = full replay': log compaction is requested only after the snapshot was committed (published and recorded) and registered with the log reader, and the compaction index never exceeds snapshot index minus the overhead; entries are removed from the log store only through the compact-log request; on snapshot recovery of an on-disk state machine the state machine is synced before the received image is shrunk; snapshot metadata (index, term, membership, sessions, on-disk index) is captured under the state-machine lock and every field of the Snapshot record is filled from that metadata; applying a recovered snapshot restores index AND term of both the applied and the last-applied cursors and the membership; sessions and membership are part of every snapshot and restored before user data (shared with C05); the last-applied cursor is published only after the entries were applied; a leader that cannot send log entries because they were compacted falls back to InstallSnapshot. Does not decide state equality of twin replicas. The on-disk cursors move only from Open, behind the apply-path assertions (to the upper index of the run), or from a snapshot that was loaded.",
 		NotCovered:  "equality of user state between a snapshot-recovered replica and a full-replay twin; on-disk index arithmetic",
 		Run:         runC08,
 	})
